@@ -1129,7 +1129,7 @@ func (ex *Exec) pos(in ssa.Instruction) string {
 	if !p.IsValid() {
 		return ""
 	}
-	return fmt.Sprintf("%s:%d", strings.TrimPrefix(p.Filename, "/repo/"), p.Line)
+	return fmt.Sprintf("%s:%d", strings.TrimPrefix(p.Filename, repoRoot+"/"), p.Line)
 }
 
 func (ex *Exec) seq(key string) int {
